@@ -1170,6 +1170,7 @@ func main() {
 	in := bufio.NewScanner(os.Stdin)
 	in.Buffer(make([]byte, 1<<20), 1<<26)
 	n := -1
+	nfail := 0
 	for in.Scan() {
 		n++
 		if n < *start {
@@ -1182,7 +1183,13 @@ func main() {
 			fmt.Printf("%d\tFAIL:bad-scenario(%v)\t-\t-\n", n, err)
 			continue
 		}
+		if nfail >= 5 && sc.timeout > 600*time.Millisecond {
+			sc.timeout = 600 * time.Millisecond // enough failures seen: do not wait 6 s for every further hang
+		}
 		v, ha, hb := runScenario(sc, *seed*1000003+uint64(n))
+		if v != "ok" {
+			nfail++
+		}
 		fmt.Printf("%d\t%s\t%s\t%s\n", n, v, ha, hb)
 	}
 }
